@@ -448,6 +448,7 @@ def spawn_guard():
 
 
 FILE_NAMED = re.compile(r"(Relevant file|in file): \S")
+PATH_NAMED = re.compile(r"\S/COND\b|\S\.cond\b")    # a path of a COND file or of an included file, whatever words surround it
 
 
 def e2e(chk, case, expect_ok, what):
@@ -487,7 +488,7 @@ def e2e(chk, case, expect_ok, what):
         else:
             if "ERROR:" not in err:
                 problems.append("rejected without an `ERROR:` diagnostic: %r" % err.strip()[:200])
-            elif not FILE_NAMED.search(err):
+            elif not FILE_NAMED.search(err) and not PATH_NAMED.search(err):   # (the wording around the file name is free)
                 problems.append("the diagnostic names no file: %r" % err.strip()[:300])
             elif case.get("must_name") and case["must_name"] not in err:
                 problems.append("the diagnostic does not name %s: %r" % (case["must_name"], err.strip()[:300]))
